@@ -1,3 +1,162 @@
-"""C11.R5 try_from_iter (placeholder until the sort/loop model is written)."""
+"""C11.R5 - try_from_iter accepts exactly pairwise disjoint inputs and maintains the complement witness.
+
+After sorting by start (sort key checked to be the start of its argument), the loop walks the adjacent pairs
+(prev, c) = (v[k], v[k+1]); candidates proposed to the invariant inference:
+    prev is the element just before the current one  (prev.start/end = v[pos].start/end),
+    W <= prev.end + 1                                 (the witness is at most one past the last interval seen).
+Obligations: an Err leaf needs c.start <= prev.end for such an adjacent pair (an overlap exists); every continuing
+iteration needs prev.end < c.start (with the sort order this gives pairwise disjointness, so Ok is only reached on
+disjoint inputs) and must update the witness like CharPartition::push; Ok returns the sorted vector and the witness;
+the empty input yields the empty partition with witness 0.  Independence of the input order follows from sorting.
+"""
+from .. import terms as T
+from .. import interp as X
+from ..region import *
+from .c11 import CP
+from .c11b import witness_step_goals
+
+
 def analyse_try_from_iter(ctx, cfg, fn, MAX):
-    pass
+    cr = ctx.crate(cfg)
+    keyclo = CP + '::try_from_iter::{closure#0}'
+    # sort key = start of the element
+    kf = cr.fn(keyclo)
+    if kf is None:
+        ctx.unanalysable('C11.R5', 'C11.R5/try_from_iter/sort-key-closure-missing', fn.path, fn.site(), None, cfg)
+        return
+    an = analyse(ctx, cfg, keyclo, [])
+    for o in an.rets:
+        ok = o.value == T.fld(A(1), 'start', 'u32')
+        ctx.obligation(ok)
+        (ctx.ok if ok else ctx.violation)('C11.R5', 'C11.R5/try_from_iter/sorted-by-start', keyclo, an.fn.site(), {'key': T.show(o.value)}, cfg)
+    items = ('items', A(0))
+    V = ('sorted', items, keyclo)
+
+    def S(k):
+        return T.fld(('elem', V, k), 'start', 'u32')
+
+    def E(k):
+        return T.fld(('elem', V, k), 'end', 'u32')
+
+    def hyps(st, goal):
+        fs = list(st.pc) + [goal]
+        idxs = []
+        for f in fs:
+            for t in T.subterms(f):
+                if t[0] == 'elem' and t[1] == V and t[2] not in idxs:
+                    idxs.append(t[2])
+        hy = []
+        n = T.typed(('len', V), 'usize')
+        for k in idxs:
+            hy.append(('imp', lt(k, n), all_(le(S(k), E(k)), le(E(k), I(MAX)))))
+        for k1 in idxs:
+            for k2 in idxs:
+                d, c = T.linearize(T.mk_sub(k2, k1))
+                if not d and c >= 1:
+                    hy.append(('imp', lt(k2, n), le(S(k1), S(k2))))
+        return hy
+
+    def cands(ip, entry, s0, f0, head, mapping):
+        out = []
+        poss = [hv for hv, ev in mapping if T.TYPES.get(hv) == 'usize']
+        ws = [hv for hv, ev in mapping if T.TYPES.get(hv) == 'u32']
+        prevs = [hv for hv, ev in mapping if T.TYPES.get(hv) is None and hv[0] == 'var' and '.r' in hv[1]]
+        for pv in prevs:
+            ps, pe = T.fld(pv, 'start', 'u32'), T.fld(pv, 'end', 'u32')
+            for k in poss:
+                out.append(AND(eq(ps, S(k)), eq(pe, E(k))))
+            for w in ws:
+                out.append(le(w, T.mk_add(pe, I(1))))
+        for w in ws:
+            out.append(le(w, I(MAX + 1)))
+        return out
+
+    ctx.assumptions.add('try_from_iter: every input CharSet is well formed (start <= end <= MAX_CHAR); sort_by_key yields a permutation ordered by the key (std, trusted)')
+    ip = X.Interp(cr, loop_candidates=cands)
+    ip.hyps = hyps
+    st = ip.start_state(fn, arg_names=['a0'])
+    outs = ip.run(st)
+    ctx.absorb(ip, fn.path)
+    backs = [b for b in ip.back_states if b[0] == fn.path]
+    heads = [h for h in ip.head_states if h[0] == fn.path]
+    ok = len(backs) >= 2 and len(heads) >= 1
+    ctx.obligation(ok)
+    (ctx.ok if ok else ctx.violation)('C11.R5', 'C11.R5/try_from_iter/loop-shape', fn.path, fn.site(), {'heads': len(heads), 'back_edges': len(backs)}, cfg)
+    for (_, head, bst, bmap, valid, cur) in backs:
+        poss = [hv for hv, ev in bmap if T.TYPES.get(hv) == 'usize']
+        ws = [hv for hv, ev in bmap if T.TYPES.get(hv) == 'u32']
+        prevs = [hv for hv, ev in bmap if T.TYPES.get(hv) is None and hv[0] == 'var' and '.r' in hv[1]]
+        ok = len(poss) == 1 and len(ws) == 1 and len(prevs) == 1
+        if not ok:
+            ctx.obligation(False)
+            ctx.violation('C11.R5', 'C11.R5/try_from_iter/head-variables', fn.path, fn.site(), {'mapping': [T.show(a) for a, b in bmap]}, cfg)
+            continue
+        k, w, pv = poss[0], ws[0], prevs[0]
+        pe = T.fld(pv, 'end', 'u32')
+        cs, ce = S(T.mk_add(k, I(1))), E(T.mk_add(k, I(1)))
+        inv = AND(eq(T.fld(pv, 'start', 'u32'), S(k)), eq(pe, E(k)))
+        okinv = inv in valid and le(w, T.mk_add(pe, I(1))) in valid
+        ctx.obligation(okinv)
+        (ctx.ok if okinv else ctx.violation)('C11.R5', 'C11.R5/try_from_iter/invariant:prev-is-predecessor-and-witness-bounded', fn.path, fn.site(), {'surviving': [T.show(c)[:120] for c in valid]}, cfg)
+        goals = [('continues-only-past-a-disjoint-pair', lt(pe, cs)),
+                 ('prev-becomes-current', AND(eq(T.fld(cur.get(pv, pv), 'start', 'u32') if cur.get(pv) is not None else cs, cs), TRUE))]
+        goals += [(r, g) for r, g in witness_step_goals(w, cur.get(w, w), cs, ce)]
+        for role, goal in goals:
+            okg = ip.entails(bst, goal)
+            ctx.obligation(okg)
+            key = 'C11.R5/try_from_iter/step:%s' % role
+            (ctx.ok if okg else ctx.violation)('C11.R5', key, fn.path, fn.site(), {'leaf_constraints': [T.show(f)[:120] for f in bst.pc][-8:], 'not_entailed': T.show(goal)[:200]}, cfg)
+    kinds = set()
+    for o in outs:
+        if o.kind != 'ret':
+            okp = panic_role(o).startswith(('explicit', 'assert'))  # debug assertions / sort internals are not reachable on well-formed input
+            dead = ip.unsat(o.state.pc, tuple(ip.resolve_hyps(o.state, hyps(o.state, TRUE))))
+            ctx.obligation(dead)
+            (ctx.ok if dead else ctx.violation)('C11.R5', 'C11.R5/try_from_iter/panic:%s' % panic_role(o), fn.path, fn.site(), {'leaf_constraints': pc_text(o)}, cfg)
+            continue
+        v = variant_of(ip, o.state, o.value)
+        if v is None:
+            ctx.unanalysable('C11.R5', 'C11.R5/try_from_iter/leaf-shape', fn.path, fn.site(), None, cfg)
+            continue
+        if v[0] == 'Err':
+            kinds.add('err')
+            ev = variant_of(ip, o.state, v[1][0])
+            heads_ = [t for f in o.pc for t in T.subterms(f) if t[0] == 'var' and '@bb' in t[1] and T.TYPES.get(t) == 'usize']
+            heads_ = list(dict.fromkeys(heads_))
+            goal = any_(*[le(S(T.mk_add(k, I(1))), E(k)) for k in heads_]) if heads_ else FALSE
+            okg = ev is not None and ev[0] == 'NonDisjointCharSets' and ip.entails(o.state, goal)
+            ctx.obligation(okg)
+            (ctx.ok if okg else ctx.violation)('C11.R5', 'C11.R5/try_from_iter/error-only-for-an-overlapping-adjacent-pair', fn.path, fn.site(), {'leaf_constraints': pc_text(o)}, cfg)
+        else:
+            part = v[1][0]
+            lst = ip.to_term(o.state, field(ip, o.state, part, 'list'))
+            wv = field(ip, o.state, part, 'comp_witness')
+            if ip.entails(o.state, eq(T.typed(('len', items), 'usize'), I(0))):
+                kinds.add('ok-empty')
+                okg = lst == items and wv == I(0)
+                role = 'empty-input-gives-empty-partition'
+            else:
+                kinds.add('ok')
+                okg = lst == V
+                role = 'returns-the-sorted-vector'
+            ctx.obligation(okg)
+            (ctx.ok if okg else ctx.violation)('C11.R5', 'C11.R5/try_from_iter/%s' % role, fn.path, fn.site(), {'list': T.show(lst)[:160], 'witness': T.show(wv)[:80]}, cfg)
+    for need in ('err', 'ok', 'ok-empty'):
+        okn = need in kinds
+        ctx.obligation(okn)
+        (ctx.ok if okn else ctx.violation)('C11.R5', 'C11.R5/try_from_iter/outcome-present:%s' % need, fn.path, fn.site(), None, cfg)
+    # first element handled like a push onto the empty partition: witness after it
+    if heads:
+        mapping = heads[0][3]
+        ws = [(hv, ev) for hv, ev in mapping if T.TYPES.get(hv) == 'u32']
+        # the entry value of the witness is decided on each entry path: 0 kept if v[0].start > 0, else v[0].end+1
+        okw = bool(ws)
+        ctx.obligation(okw)
+        (ctx.ok if okw else ctx.violation)('C11.R5', 'C11.R5/try_from_iter/witness-tracked', fn.path, fn.site(), None, cfg)
+    # try_from_list delegates
+    an = analyse(ctx, cfg, CP + '::try_from_list', [], uninterpreted=lambda p: p == CP + '::try_from_iter')
+    for o in an.rets:
+        t = an.ip.to_term(o.state, o.value)
+        ok = t[0] == 'call' and t[1] == CP + '::try_from_iter' and 'a0' in T.show(t[2][0])
+        ctx.obligation(ok)
+        (ctx.ok if ok else ctx.violation)('C11.R5', 'C11.R5/try_from_list/delegates', an.fn.path, an.fn.site(), {'returned': T.show(t)[:160]}, cfg)
